@@ -34,7 +34,7 @@ class Evaluator(Formatter):
 
     def observer(self, comp, broker):
         if self.context_cls is None:
-            for c in self.broker.instances:
+            for c in list(self.broker.instances):
                 try:
                     if issubclass(c, ExecutionContext):
                         self.context_cls = c
